@@ -999,8 +999,8 @@ func diffSummary(a, b proto.Message) string {
 	return strings.Join(out, "; ")
 }
 
-func execC18(t *testing.T, c *Case) *Verdict {
-	v := &Verdict{}
+func execC18(t *testing.T, c *Case) (v *Verdict) {
+	v = &Verdict{}
 	v.Stats.Runs = 1
 	if c.C18 == nil {
 		v.Infra = "case has no c18 section"
